@@ -55,6 +55,9 @@ def menu(c: reg.Country, comp: str, salt: int, tier: str, other_w: int = 0) -> l
     if other_w:
         comb = conforming(c, comp, w, salt) + "".join(DIG[(i + salt) % 10] for i in range(other_w))
         items += [comb, comb + "9", comb + "12"]  # combined width, and one / two beyond it
+        if w >= 2:
+            items.append(comb[:w] + " " + comb[w:-1])   # raw length == combined width, one real char less
+            items.append(comb[:w] + " " + comb[w:])     # a genuine combined code written with a blank
     if w >= 3:
         y = conforming(c, comp, w - 2, salt + 3)  # white-space inside a value that also needs padding
         items.append(y[:1] + " " + y[1:])
